@@ -106,11 +106,12 @@ Section Props.
     end.
   Proof.
     intros (HL & HE & HT) HF. destruct g1 as [c1 fl1 tx1 ns1 e1 t1 l1], g2 as [c2 fl2 tx2 ns2 e2 t2 l2].
-    simpl in *. subst. unfold lex_parse_curr_file. destruct (f_text f) as [t|d]; simpl.
+    simpl in *. subst. unfold lex_parse_curr_file. destruct (f_text f) as [t| |d]; simpl.
     - unfold exit_if_errors; simpl. destruct e2; simpl.
       + repeat split; reflexivity.
       + destruct (po_exn (parse_file l2 w [] ps (f_short f) (f_path f) t)); simpl;
           repeat split; reflexivity.
+    - repeat split; reflexivity.
     - repeat split; reflexivity.
   Qed.
 
@@ -174,7 +175,7 @@ Section Props.
     g_limit g' = g_limit g /\ g_cache g' = g_cache g /\ g_file g' = g_file g /\
     (oe = None -> g_err g = false -> g_err g' = false /\ g_errtxt g' = g_errtxt g).
   Proof.
-    destruct g as [c fl tx ns e t l]. unfold lex_parse_curr_file. destruct (f_text f) as [tt|d]; simpl.
+    destruct g as [c fl tx ns e t l]. unfold lex_parse_curr_file. destruct (f_text f) as [tt| |d]; simpl.
     - unfold exit_if_errors; simpl. destruct e; simpl.
       + intros H; inversion H; subst; simpl. repeat split; auto; discriminate.
       + destruct (parse_file l w [] ps (f_short f) (f_path f) tt) as [pst pns perrs pexn]; simpl.
@@ -182,6 +183,7 @@ Section Props.
         * intros H; inversion H; subst; simpl. repeat split; auto; discriminate.
         * destruct perrs; simpl; intros H; inversion H; subst; simpl; repeat split; auto; try discriminate.
           now rewrite app_nil_r.
+    - intros H; inversion H; subst; simpl. repeat split; auto; discriminate.
     - intros H; inversion H; subst; simpl. repeat split; auto; discriminate.
   Qed.
 
@@ -624,80 +626,51 @@ Section Props.
   Qed.
 End Props.
 
-(* ---------- closed statements ---------- *)
-Theorem history_free_fixed : history_free_statement fixed_shape.
+(* ---------- closed statement ---------- *)
+Theorem history_free_code : history_free_statement code_shape.
 Proof.
   intros text diag consts macros mainops opts output ic im imn pf fv be U HC HS L0 h probe HU HP.
   exact (history_free_scoped text diag consts macros mainops opts output ic im imn pf fv be true U HC HS L0 h probe
                              eq_refl HU HP).
 Qed.
 
-Theorem history_free_guarded_code :
+(* the limit is the same before and after every call, whatever the call does *)
+Theorem limit_preserved_code :
   forall (text diag consts macros mainops opts output : Type)
          (init_consts : Z -> consts) (init_macros : string -> string -> macros) (init_main : mainops)
          (parse_file : Z -> bool -> list string -> pstate consts macros mainops -> string -> string -> text
                        -> parse_out diag consts macros mainops)
          (final_validate : pstate consts macros mainops -> list diag)
          (backend : Z -> Z -> Z -> opts -> pstate consts macros mainops -> output + diag)
-         (U : request text diag opts -> Prop),
-    content_identified U -> spelling_identified U ->
-    forall (L0 : Z) (history : list (request text diag opts)) (probe : request text diag opts),
-      Forall U history -> U probe ->
-      limit_restored init_consts init_macros init_main parse_file final_validate backend code_shape
-                     (init_g L0) history = true ->
-      snd (assemble_step init_consts init_macros init_main parse_file final_validate backend code_shape
-             (run_history init_consts init_macros init_main parse_file final_validate backend code_shape
-                          (init_g L0) history) probe)
-      = snd (assemble_step init_consts init_macros init_main parse_file final_validate backend code_shape
-                           (init_g L0) probe).
+         (g : gstate text diag consts macros mainops) (rq : request text diag opts),
+    g_limit (fst (assemble_step init_consts init_macros init_main parse_file final_validate backend code_shape g rq))
+    = g_limit g.
 Proof.
-  intros text diag consts macros mainops opts output ic im imn pf fv be U HC HS L0 h probe HU HP HL.
-  exact (history_free_guarded text diag consts macros mainops opts output ic im imn pf fv be false U HC HS L0 h probe
-                              HU HP HL).
+  intros. exact (step_limit_scoped text diag consts macros mainops opts output init_consts init_macros init_main
+                                   parse_file final_validate backend true g rq eq_refl).
 Qed.
 
-(* a sufficient syntactic condition for the guard: no earlier call asked for a non-default depth *)
-Theorem default_depth_restores_limit :
-  forall (text diag consts macros mainops opts output : Type)
-         (init_consts : Z -> consts) (init_macros : string -> string -> macros) (init_main : mainops)
-         (parse_file : Z -> bool -> list string -> pstate consts macros mainops -> string -> string -> text
-                       -> parse_out diag consts macros mainops)
-         (final_validate : pstate consts macros mainops -> list diag)
-         (backend : Z -> Z -> Z -> opts -> pstate consts macros mainops -> output + diag)
-         (history : list (request text diag opts)),
-    forallb (fun rq => Z.eqb (rq_depth rq) DEFAULT_DEPTH) history = true ->
-    limit_restored init_consts init_macros init_main parse_file final_validate backend code_shape
-                   (init_g FRESH_LIMIT) history = true.
-Proof.
-  intros text diag consts macros mainops opts output ic im imn pf fv be h HD.
-  unfold limit_restored. apply (limits_ok_default text diag consts macros mainops opts output ic im imn pf fv be false).
-  - reflexivity.
-  - simpl. rewrite forallb_forall in *. intros rq Hin. specialize (HD rq Hin). apply Z.eqb_eq in HD.
-    apply Z.eqb_eq. rewrite HD. reflexivity.
-Qed.
-
-(* ---------- the refutation on the current tree (finding F13) ---------- *)
+(* ---------- the tree before commit fe7c037 (finding F13): the witness ---------- *)
 Module Witness.
   Import Replay.
   Local Open Scope string_scope.
   Definition plain (need : Z) : behaviour := mkbeh need false false [] false.
   (* history: assemble(";0\n;0", max_recursion_depth=60), no stl *)
   Definition f_small : rfile :=
-    mkfile "f1" "/u/small.fj" "/u/small.fj" "/u/small.fj" false true (Some (1, 6)) (inl (1, plain 20)).
+    mkfile "f1" "/u/small.fj" "/u/small.fj" "/u/small.fj" false true (Some (1, 6)) (ReadOk (1, plain 20)).
   (* probe: a macro definition holding a 150-term sum, default depth: parsing it needs more than 160 frames *)
   Definition f_deep : rfile :=
-    mkfile "f1" "/u/deep.fj" "/u/deep.fj" "/u/deep.fj" false true (Some (2, 700)) (inl (2, plain 320)).
+    mkfile "f1" "/u/deep.fj" "/u/deep.fj" "/u/deep.fj" false true (Some (2, 700)) (ReadOk (2, plain 320)).
   Definition rq_small : rrequest := mkrq [f_small] 64 true 60 (mkbopts false 0).
   Definition rq_deep : rrequest := mkrq [f_deep] 64 true DEFAULT_DEPTH (mkbopts false 0).
   Definition history : list rrequest := [rq_small].
-  Definition UW (r : rrequest) : Prop := In r (rq_deep :: history).
 End Witness.
 
 Ltac refute_with h probe :=
   let H := fresh "H" in
   intros H;
   specialize (H Replay.text Replay.token Replay.toks Replay.toks Replay.toks Replay.bopts _
-                Replay.r_init_consts Replay.r_init_macros [] Replay.r_parse_file (fun _ => []) Replay.r_backend
+                Replay.r_init_consts Replay.r_init_macros [] Replay.r_parse_file Replay.r_final_validate Replay.r_backend
                 (fun r => In r (probe :: h)));
   let HC := fresh "HC" in
   assert (HC : content_identified (fun r => In r (probe :: h)));
@@ -740,25 +713,16 @@ Ltac refute_with h probe :=
       specialize (H HU (or_introl eq_refl));
       vm_compute in H; discriminate H ] ].
 
-Theorem history_free_refuted : ~ history_free_statement code_shape.
-Proof. refute_with Witness.history Witness.rq_deep. Qed.
-
-(* the guard is what fails on that witness *)
-Lemma witness_guard_false :
-  limit_restored Replay.r_init_consts Replay.r_init_macros [] Replay.r_parse_file (fun _ => []) Replay.r_backend
-                 code_shape Replay.g0 Witness.history = false.
-Proof. vm_compute. reflexivity. Qed.
-
-(* non-vacuity of the guarded theorem: a three-call history with a warm cache, another width, a failing
+(* non-vacuity: a three-call history with a warm cache, another width, a failing
    input that leaves a namespace open - and a probe that hits the cache *)
 Module Example.
   Import Replay.
   Local Open Scope string_scope.
   Definition okb : behaviour := mkbeh 50 false false [] false.
   Definition stl (n : string) : rfile :=
-    mkfile n ("/stl/" ++ n) ("/stl/" ++ n) ("/stl/" ++ n) true true (Some (5, 7)) (inl (9, okb)).
+    mkfile n ("/stl/" ++ n) ("/stl/" ++ n) ("/stl/" ++ n) true true (Some (5, 7)) (ReadOk (9, okb)).
   Definition user (cid : Z) (b : behaviour) : rfile :=
-    mkfile "f1" "/u/p.fj" "/u/p.fj" "/u/p.fj" false true (Some (cid, 10)) (inl (cid, b)).
+    mkfile "f1" "/u/p.fj" "/u/p.fj" "/u/p.fj" false true (Some (cid, 10)) (ReadOk (cid, b)).
   Definition rq (w : Z) (cid : Z) (b : behaviour) : rrequest :=
     mkrq [stl "s1"; stl "s2"; user cid b] w true DEFAULT_DEPTH (mkbopts false 0).
   Definition history : list rrequest :=
@@ -766,16 +730,11 @@ Module Example.
   Definition probe : rrequest := rq 64 4 okb.
 End Example.
 
-Lemma example_guard_holds :
-  limit_restored Replay.r_init_consts Replay.r_init_macros [] Replay.r_parse_file (fun _ => []) Replay.r_backend
-                 code_shape Replay.g0 Example.history = true.
-Proof. vm_compute. reflexivity. Qed.
-
 Lemma example_probe_hits_cache :
-  List.length (g_cache (run_history Replay.r_init_consts Replay.r_init_macros [] Replay.r_parse_file (fun _ => [])
+  List.length (g_cache (run_history Replay.r_init_consts Replay.r_init_macros [] Replay.r_parse_file Replay.r_final_validate
                                Replay.r_backend code_shape Replay.g0 Example.history)) = 2%nat
   /\ Replay.class_of (snd (Replay.step code_shape
-         (run_history Replay.r_init_consts Replay.r_init_macros [] Replay.r_parse_file (fun _ => [])
+         (run_history Replay.r_init_consts Replay.r_init_macros [] Replay.r_parse_file Replay.r_final_validate
                       Replay.r_backend code_shape Replay.g0 Example.history) Example.probe)) = 0.
 Proof. vm_compute. split; reflexivity. Qed.
 
@@ -797,13 +756,15 @@ Module Variants.
     mkshape true true true true true true  true true true  true true true  false true true  true.
   Definition err_not_reset : shape :=
     mkshape true true true true true true  true true true  true true true  true false true  true.
+  (* the tree before commit fe7c037: sys.setrecursionlimit never undone (finding F13) *)
+  Definition limit_not_restored : shape := shape_of false.
 
   Definition okb := Example.okb.
   Definition rqw (w : Z) (we : bool) (cid : Z) (b : behaviour) : rrequest :=
     mkrq [Example.stl "s1"; Example.stl "s2"; Example.user cid b] w we DEFAULT_DEPTH (mkbopts false 0).
   (* an stl file edited in place: same path, new mtime and size, new content *)
   Definition stl2 : rfile :=
-    mkfile "s2" "/stl/s2" "/stl/s2" "/stl/s2" true true (Some (6, 8)) (inl (10, okb)).
+    mkfile "s2" "/stl/s2" "/stl/s2" "/stl/s2" true true (Some (6, 8)) (ReadOk (10, okb)).
   Definition rq_edited : rrequest :=
     mkrq [Example.stl "s1"; stl2; Example.user 4 okb] 64 true DEFAULT_DEPTH (mkbopts false 0).
   Definition broken : behaviour := mkbeh 50 true false ["left_open"] false.
@@ -828,3 +789,5 @@ Lemma variant_ns_not_reset_refuted : ~ history_free_statement Variants.ns_not_re
 Proof. refute_with [Variants.rq_nostl 1 Variants.broken] (Variants.rq_nostl 2 Variants.okb). Qed.
 Lemma variant_err_not_reset_refuted : ~ history_free_statement Variants.err_not_reset.
 Proof. refute_with [Variants.rq_nostl 1 Variants.broken] (Variants.rq_nostl 2 Variants.okb). Qed.
+Lemma variant_limit_not_restored_refuted : ~ history_free_statement Variants.limit_not_restored.
+Proof. refute_with Witness.history Witness.rq_deep. Qed.
